@@ -283,42 +283,59 @@ def eraseKids : List Tree → List Tree
   | t :: ts => t.eraseHidden :: eraseKids ts
 end
 
-/-! ### `print_help` as an operation on a parser (parsing.py:381-383, 523-554) -/
+/-! ### `print_help` as an operation on a parser (parsing.py:396-406, 540-580) -/
 
-/-- a parser: `build applied args` is the table `_preprocessing(args)` builds on a fresh parser whose
-    config files have (`applied = true`) or have not yet been pushed into the wrappers
-    (`set_defaults`, parsing.py:300-306); `table` is `none` until `_preprocessing_done`.
-    The table depends on `args` only when some field is a subgroup choice (`_resolve_subgroups`,
-    parsing.py:599-792). -/
+/-- a parser: `build ctor argv args` is the table `_preprocessing(args)` builds on a parser whose
+    constructor config files (`config_path=`) have (`ctor = true`) or have not been pushed into the
+    wrappers, and likewise (`argv`) for the files named by `--config_path` on the command line
+    (`set_defaults`, parsing.py:306-346); `table` is `none` until `_preprocessing_done`.
+    The table depends on `args` only when some field is a subgroup choice (`_resolve_subgroups`). -/
 structure Parser (T : Type) where
-  build : Bool → List Str → T
-  hasFiles : Bool           -- config files: `config_path=` of the constructor or `--config_path` on the command line
-  applied : Bool := false
+  build : Bool → Bool → List Str → T
+  hasCtorFiles : Bool                 -- `ArgumentParser(config_path=...)`
+  namesFiles : List Str → Bool        -- does this command line carry `--config_path <file>`?
+  ctorApplied : Bool := false
+  argvApplied : Bool := false
   table : Option T := none
 
-/-- `_preprocessing(args)` (parsing.py:523-554) -/
+/-- `_preprocessing(args)` (parsing.py:540-580) -/
 def Parser.prep {T : Type} (p : Parser T) (args : List Str) : Parser T :=
   match p.table with
   | some _ => p
-  | none => { p with table := some (p.build p.applied args) }
+  | none => { p with table := some (p.build p.ctorApplied p.argvApplied args) }
 
-/-- `print_help()` = `_preprocessing(args=[])`, then format the table (parsing.py:381-383) -/
-def Parser.printHelp {T : Type} (p : Parser T) : Parser T := p.prep []
+/-- `print_help()`: since fix e83a7f8 the constructor's config files are applied first (when the
+    arguments have not been generated yet), then `_preprocessing(args=[])`, then the table is
+    formatted (parsing.py:396-406) -/
+def Parser.printHelp {T : Type} (p : Parser T) : Parser T :=
+  match p.table with
+  | some _ => p
+  | none => ({ p with ctorApplied := p.ctorApplied || p.hasCtorFiles }).prep []
 
-/-- `parse_known_args(args)`: apply the config files, `_preprocessing(args)`, run argparse on the
-    table (parsing.py:281-363) -/
+/-- `print_help()` before fix e83a7f8: no file was applied -/
+def Parser.printHelpOld {T : Type} (p : Parser T) : Parser T := p.prep []
+
+/-- `parse_known_args(args)`: apply the constructor's files, then those named on the command line,
+    `_preprocessing(args)`, run argparse on the table (parsing.py:281-380) -/
 def Parser.parse {T R : Type} (run : T → List Str → R) (p : Parser T) (args : List Str) :
     R × Parser T :=
-  let p1 := { p with applied := p.applied || p.hasFiles }
+  let p1 := { p with ctorApplied := p.ctorApplied || p.hasCtorFiles,
+                     argvApplied := p.argvApplied || p.namesFiles args }
   let p2 := p1.prep args
   match p2.table with
   | some t => (run t args, p2)
-  | none => (run (p1.build p1.applied args) args, p2)   -- unreachable
+  | none => (run (p1.build p1.ctorApplied p1.argvApplied args) args, p2)   -- unreachable
 
-/-- the parser of the entries model: no subgroup fields, so `args` is not consulted -/
-def helpParser (cfg : Cfg) (mode : CR) (forest : Forest) (src : Sources) : Parser Out :=
-  { build := fun applied _ =>
-      entries cfg mode forest (if applied then src else { src with files := [] }),
-    hasFiles := !src.files.isEmpty }
+/-- the parser of the entries model: no subgroup fields, so `args` is not consulted for the table.
+    `src.files` are the constructor's files; `argvFiles` (applied after them) are the ones a command
+    line names when `names` says it does. -/
+def helpParser (cfg : Cfg) (mode : CR) (forest : Forest) (src : Sources)
+    (argvFiles : List (List (Str × Str)) := []) (names : List Str → Bool := fun _ => false) :
+    Parser Out :=
+  { build := fun ctor argv _ =>
+      entries cfg mode forest
+        { src with files := (if ctor then src.files else []) ++ (if argv then argvFiles else []) },
+    hasCtorFiles := !src.files.isEmpty,
+    namesFiles := names }
 
 end SpVerif.Help
